@@ -100,3 +100,24 @@ func vhEqIter(a, b fp.Try[fp.Iterator[int]]) bool {
 	}
 	return a.Failed().Get() == b.Failed().Get()
 }
+
+// call log for C02: every user-supplied function appends its id and arguments
+var vhCalls []int
+
+func vhLog(id int, args ...int) {
+	vhCalls = append(vhCalls, id)
+	vhCalls = append(vhCalls, args...)
+	vhCalls = append(vhCalls, -7777)
+}
+
+func vhLogEq(a, b []int) bool {
+	if len(a) != len(b) {
+		return false
+	}
+	for i := range a {
+		if a[i] != b[i] {
+			return false
+		}
+	}
+	return true
+}
